@@ -702,6 +702,37 @@ theorem no_truncate_unsafe :
     (openP dec s).map (·.root) = some [9] := by
   decide
 
+/-! ### the driver's incremental evaluation is the definition -/
+
+theorem prefixStates_getElem? (w : W) (ops : List Op) (i : Nat) (h : i ≤ ops.length) :
+    (prefixStates w ops)[i]? = some ((ops.take i).foldl W.apply w) := by
+  induction ops generalizing w i with
+  | nil =>
+    have : i = 0 := by simpa using h
+    subst this; rfl
+  | cons op ops ih =>
+    cases i with
+    | zero => rfl
+    | succ i =>
+      simp only [prefixStates, List.getElem?_cons_succ, List.take_succ_cons, List.foldl_cons]
+      exact ih (w.apply op) i (by simpa using h)
+
+/-- what `vtdriver` evaluates (`crashWith` on the prefix states) is `crashOn` -/
+theorem crashWith_eq (old : Bytes) (ops : List Op) (i k : Nat) :
+    crashWith (prefixStates { file := old, pos := 0 } ops) ops i k = crashOn old ops i k := by
+  unfold crashWith crashOn runOn
+  cases hg : ops[i]? with
+  | none =>
+    simp only
+    rw [prefixStates_getElem? _ _ _ (Nat.le_refl _), List.take_length]
+    rfl
+  | some op =>
+    have hi : i < ops.length := by
+      rcases Nat.lt_or_ge i ops.length with h | h
+      · exact h
+      · rw [List.getElem?_eq_none h] at hg; cases hg
+    rw [prefixStates_getElem? _ _ _ (Nat.le_of_lt hi)]
+
 /-! ### non-vacuity -/
 
 /-- a decompressor that accepts exactly one stream satisfies both laws -/
